@@ -127,6 +127,20 @@ fn do_read<'db>(db: &'db VDb, op: &Op, n: usize, held: &mut Vec<&'db Val>) {
                     ev!("e": "ret", "ok": 1, "kind": "", "msg": "", "v": v.v, "s": v.serial,
                         "hs": v.hs.iter().map(|i| idstr(*i)).collect::<Vec<_>>(), "acc": Vec::<i64>::new(), "ni": v.is.len());
                     held.push(v);
+                    // field getters at top level: read back everything the result hands out
+                    let rr = catch_unwind(AssertUnwindSafe(|| {
+                        for (pos, id) in v.hs.iter().enumerate() {
+                            let t = <T as salsa::plumbing::FromId>::from_id(*id);
+                            ev!("e": "tfld", "pos": pos + 1, "id": idstr(*id), "ident": t.ident(db).0, "x": t.x(db).v, "y": t.y(db).v);
+                        }
+                        for (pos, (kind, id)) in v.is.iter().enumerate() {
+                            ev!("e": "tint", "pos": pos + 1, "kind": *kind, "id": idstr(*id), "v": read_interned(db, *kind, *id));
+                        }
+                    }));
+                    if let Err(p) = rr {
+                        let (kind, msg) = classify(&p);
+                        ev!("e": "tpanic", "kind": kind, "msg": msg);
+                    }
                 }
                 Err(p) => end_panic(p),
             }
